@@ -415,9 +415,11 @@ type cueCase struct {
 	P   []string `json:"p"`
 	CP  string   `json:"cp"`
 	Dom bool     `json:"dom"`
-	Pos string   `json:"pos,omitempty"` // "" head | filter | arg | group: only head is modelled
-	Q   string   `json:"-"`
-	Txt string   `json:"-"`
+	Pos string   `json:"pos,omitempty"` // "" head | filter | arg | group | elem: the head position and (with Steps) element steps are modelled
+	// Steps: a path of keys and element functions for the model ("k:<key>" | "e" for First() / Last() / Index(i) | "c:<key>" for a filter whose condition reads that key of the elements)
+	Steps []string `json:"steps,omitempty"`
+	Q     string   `json:"-"`
+	Txt   string   `json:"-"`
 }
 
 func (c *Ctx) cueDo(cs cueCase, cls, expect string, unspec bool) cueOut {
@@ -596,6 +598,9 @@ func genC13(c *Ctx) {
 			}
 			q := "$." + strings.Join(p, ".")
 			c.cueDo(cueCase{S: root, P: p, CP: cp, Dom: !unspec, Q: q, Txt: txt}, cls, expect, unspec)
+			if cp != "" && k%3 == 0 { // the same path written from `@`: a top-level `@` path starts at the root like `$`
+				c.cueDo(cueCase{S: root, P: p, CP: cp, Dom: !unspec, Pos: "at-root", Q: "@." + strings.Join(p, "."), Txt: txt}, cls+"/at-root", expect, unspec)
+			}
 		}
 	}
 	// keys applied to the elements of a list: after First / Last / Index, and as the key of a filter condition; open lists `[...T]`
@@ -654,7 +659,16 @@ func genC13(c *Ctx) {
 				}
 			}
 			cls := []string{"element-key/First", "element-key/Last", "element-key/Index", "element-key/filter"}[form] + map[int]string{0: "/closed-list", 1: "/open-list"}[cur.Open]
-			c.cueDo(cueCase{S: root, P: append(append([]string{}, p...), key), CP: "", Dom: !unspec, Pos: "elem", Q: q, Txt: txt}, cls, expect, unspec)
+			var steps []string
+			for _, pk := range p {
+				steps = append(steps, "k:"+pk)
+			}
+			if form < 3 {
+				steps = append(steps, "e", "k:"+key)
+			} else { // a filter whose condition reads the key
+				steps = append(steps, "c:"+key)
+			}
+			c.cueDo(cueCase{S: root, P: append(append([]string{}, p...), key), CP: "", Dom: !unspec, Pos: "elem", Steps: steps, Q: q, Txt: txt}, cls, expect, unspec)
 		}
 	}
 	// hand-written schemas: definitions (which are not fields: `#name` is not an addressable key, wherever it is declared), and root
@@ -951,7 +965,14 @@ func genC15(c *Ctx) {
 						if nm == "nosuch" {
 							expect = "REJ"
 						}
-						c.cueDo(cueCase{S: root, P: []string{"input", "items", nm}, CP: cp, Dom: true, Pos: "elem", Q: q, Txt: txt}, "element-fields-named-like-steps", expect, false)
+						var steps []string
+						switch fi {
+						case 0:
+							steps = []string{"k:input", "k:items", "c:" + nm}
+						case 1:
+							steps = []string{"k:input", "k:items", "e", "k:" + nm}
+						}
+						c.cueDo(cueCase{S: root, P: []string{"input", "items", nm}, CP: cp, Dom: true, Pos: "elem", Steps: steps, Q: q, Txt: txt}, "element-fields-named-like-steps", expect, false)
 					}
 				}
 			}
